@@ -16,6 +16,9 @@
 //	Part 3 (schedules): 2-3 threads request certificates concurrently on empty / primed / expired caches
 //	  under the gosim scheduler, all interleavings of the cache lock operations (unbounded); every
 //	  caller's certificate must verify for its own name.
+//	Parts 4-6 and the extensions of parts 1-3 added by the audit (AUDIT.md) are in audit.go: one tls.Config
+//	  answering hello sequences, setters interleaved with issuance, failing CA signer, edge spellings, expiry
+//	  histories through the SNI entry points, TLS 1.2 handshakes, more host classes under the scheduler.
 package main
 
 import (
@@ -1226,7 +1229,7 @@ func main() {
 	// (started first: it runs while the shards do the exhaustive parts)
 	raceIters := "8"
 	if tier == "thorough" {
-		raceIters = "200"
+		raceIters = "150"
 	}
 	raceCh := make(chan lib.RaceResult, 1)
 	go func() { raceCh <- lib.RacePass("c06", "racebodies", "c06", raceIters) }()
